@@ -116,6 +116,43 @@ Definition done_events (n : Z) (close_id close2_id : option Z) (s0 s1 : st) : li
                  | None => [] end in
   map (fun c => (n, EDone c)) (sortZ (b_done ++ s_done ++ c_done ++ c2_done)).
 
+(* ---------------------------------------------------------------------------------------- *)
+(* what must hold of a state AT REST (no internal event enabled), executable.  Proofs_rest.v:
+   [rest_ok (quiesce vr s) = true] for every reachable [s] (C11_rest_ok), i.e. after the internal
+   activity has died down (a) a call is still pending only under back-pressure from a live
+   stalled subscriber, and (b) unless there is such back-pressure, every subscriber that stays
+   (context alive, broadcaster open) and reads promptly HAS received everything fanned out since
+   it subscribed.  The checker evaluates it on every state it predicts. *)
+
+Definition pc_pending (c : closepc) : bool :=
+  match c with CWantLock | CWaitFwd => true | _ => false end.
+
+Definition call_pendingb (s : st) : bool :=
+  match lock s with Held _ _ => true | Free => false end
+  || negb (match bq s with [] => true | _ => false end)
+  || negb (match pend_subs s with [] => true | _ => false end)
+  || pc_pending (cl s) || pc_pending (cl2 s).
+
+Definition backpressureb (s : st) : bool :=
+  match lock s with
+  | Held _ idx =>
+      match nth_error (subs s) idx with
+      | Some b => negb (ctx_done b) && registered b && negb (exit_closed b)
+                  && Nat.eqb (length (buf b)) bufcap
+                  && match fwd b with Holding _ => true | _ => false end
+                  && negb (consumer_ready b)
+      | None => false
+      end
+  | Free => false
+  end.
+
+Definition delivered_allb (s : st) : bool :=
+  forallb (fun b => ctx_done b || closed s || negb (prompt b)
+                    || eqb_lz (received b) (skipn (start b) (fanout s))) (subs s).
+
+Definition rest_ok (s : st) : bool :=
+  (negb (call_pendingb s) || backpressureb s) && (backpressureb s || delivered_allb s).
+
 Record drv := mkDrv {
   d_st : st;
   d_close : option Z;       (* step of the first Close call *)
@@ -123,6 +160,7 @@ Record drv := mkDrv {
   d_amb : bool;             (* an order-dependent choice was met *)
   d_bad : bool;             (* the script left the model's domain (touches a subscriber that does
                                not exist yet, calls Close a third time) *)
+  d_rest : bool;            (* [rest_ok] held of every predicted state so far (always: C11_drive_rest_ok) *)
   d_obs : list (Z * oev)
 }.
 
@@ -132,19 +170,19 @@ Definition drive_step (vr : variant) (d : drv) (n : Z) (o : op) : drv :=
   let s0 := d_st d in
   let second := match d_close d with Some _ => true | None => false end in
   match (if op_ok o then run vr s0 (env_events second n o) else None) with
-  | None => mkDrv s0 (d_close d) (d_close2 d) (d_amb d) true (d_obs d)
+  | None => mkDrv s0 (d_close d) (d_close2 d) (d_amb d) true (d_rest d) (d_obs d)
   | Some s_env =>
       let close_id := if is_close o && negb second then Some n else d_close d in
       let close2_id := if is_close o && second then Some n else d_close2 d in
       let '(s1, amb) := quiesce_amb (measure s_env) vr s_env (d_amb d) in
-      mkDrv s1 close_id close2_id amb (d_bad d)
+      mkDrv s1 close_id close2_id amb (d_bad d) (d_rest d && rest_ok s1)
             (d_obs d ++ sub_events n (subs s0) (subs s1)
                      ++ done_events n close_id close2_id s0 s1)
   end.
 
 Definition drive (vr : variant) (sc : list op) : drv :=
   fold_left (fun d no => drive_step vr d (fst no) (snd no)) (zindex sc)
-            (mkDrv init None None false false []).
+            (mkDrv init None None false false true []).
 
 Definition oev_eqb (a b : oev) : bool :=
   match a, b with
@@ -250,7 +288,8 @@ Definition model_agrees (c : case) : bool :=
   match c with
   | CScript sc ob _ =>
       let d := drive Fixed sc in
-      if d_amb d then true          (* an order the runtime does not fix was met: oracle only *)
+      if negb (d_rest d) then false (* never: C11_drive_rest_ok *)
+      else if d_amb d then true     (* an order the runtime does not fix was met: oracle only *)
       else if d_bad d then false
       else obs_eqb (d_obs d) ob
   | CConc n calls stay leaver late w =>
